@@ -6,6 +6,8 @@
     CRC-32 check value, residue, GF(2)-affinity, table derived from the polynomial; murmur variants against each
     other; byte-limb multiplication against TLC's integers and the ring laws).
 (A) Trace_Hashes: the real functions on every input of the generators; TLC recomputes every returned value.
+    Besides input coverage: gen conc (many goroutines on different inputs), gen alias / churn (state carried
+    across calls, slices shared with the caller: Scribble / Held steps of the memo state machine).
 (S) sweeps of the spaces TLC cannot enumerate against the Go transliteration of the operators, the transliteration
     bound to the spec by `ref` fields TLC compares; disagreements become one-event histories judged by TLC."""
 import os, concurrent.futures as cf
@@ -55,10 +57,12 @@ def body(run):
     validate_parallel(run, out, meta, run.pick(8, 10))
     run.selftest(out, meta, gen="rand", field="arg")
     run.selftest(out, meta, gen="hexa", field="v")
+    run.selftest(out, meta, gen="alias", field="before")
     run.assumptions += [
         "return values are projected to byte tuples by the harness with encoding/binary only (never golib); Go int (stringutil.HashCode) is taken as 64-bit: the platforms golib is built for",
         "TLC recomputes every value of every recorded input; the spaces it cannot enumerate (2^32 addresses, 2^32 identifiers, strings of length 3, 2^32 murmur arguments / pairs of halves) are compared with a Go transliteration of the operators, itself compared with the spec on a stratified sample (`ref`); in the quick tier the 2^32 spaces are 2^24 strided samples and the 65 536 strings of length 2 a sample of 1 024 judged by TLC (all of them by the sweep)",
-        "purity is observed as: the same input evaluated four times (twice in sequence, twice from concurrently running goroutines) and again later in the history returns the same record, and the input slice is unchanged",
+        "purity is observed as: the same input evaluated four times (twice in sequence, twice from concurrently running goroutines) and again later in the history returns the same record, and the input slice is unchanged; gen conc: 8 x GOMAXPROCS goroutines work through long and short byte strings and inputs of every other family, each in an order of its own, and every distinct record any evaluation returned is judged (how many evaluations overlap is up to the scheduler: load can only lose detection); gen alias/churn: the slices golib returned and was passed are overwritten by the caller or kept and read again later (events Scribble, Held) between evaluations of the same and of other inputs, in a fresh process and after the sweeps, and more distinct addresses than a bounded cache would hold are evaluated with returns to earlier ones",
+        "everywhere (sweeps included) the harness overwrites a slice golib returned as soon as it has copied it: a caller owns what it is handed",
         "named deviations pinned as today's persisted values, not reported as defects: Hash64 XORs the sign-extended table entry into a 64-bit register; Hash64v2/V2 shift the 64-bit register before selecting the two table entries; murmur32 takes the 1..3 tail bytes in the order of Bialecki's Java port (data[n-3]<<16, data[n-2]<<8, data[n-1]) and unsigned; MurmurHash(uint32) zero-extends; HashCode runs Java's recurrence over bytes in a 64-bit register",
         "outside the documented forms the property is silent and nothing is asserted: ToLong32 of upper case / other characters / overflowing numerals / multi-digit decimal text, ToBytes of fields that are not 1..3 decimal digits <= 255, ToString of slices shorter than 4 bytes",
     ]
